@@ -224,6 +224,12 @@ def run_check(prop, fn, tier, root, level="other"):
         return ctx.finish()
     except AnalysisError as e:
         print(f"ANALYSIS-ERROR property={prop}: {e}")
+        # violations established before the analyser gave up remain valid verdicts
+        if ctx.findings:
+            ctx.info(f"analysis stopped early: {e}")
+            rc = ctx.finish()
+            if rc == 1:
+                return 1
         return 2
     except Exception:  # noqa: BLE001
         traceback.print_exc()
